@@ -722,8 +722,202 @@ def correspondence(rng, tier):
 LAST_STATS = {}
 
 
+# ===================================================================== probes
+def _const(v):
+    v = np.asarray(v, dtype=float)
+    return v.size == 0 or bool(np.all(v == v.flat[0]))
+
+
+def finding_keys(op):
+    """Keys of the recorded findings whose precondition is met by some node of the operator graph
+    (the exact complement of the preconditions of the *_partial theorems in C05/Props.v)."""
+    import odl
+    from odl.operator import default_ops as D
+    from odl.operator import tensor_ops as TO
+    from odl.operator import pspace_ops as PO
+    from odl.discr import diff_ops as DO
+    from odl.discr import discr_ops as DI
+    keys = set()
+
+    def walk(o):
+        t = type(o)
+        name = t.__name__
+        if t is TO.MatrixOperator:
+            wd, wr = gram(o.domain, 'Q'), gram(o.range, 'Q')
+            if not (_const(wd) and _const(wr) and (wd.size == 0 or wr.size == 0 or wd.flat[0] == wr.flat[0])):
+                keys.add('matrix-adjoint-nonuniform-weight')
+        elif t in (TO.SamplingOperator, TO.WeightedSumSamplingOperator):
+            sp = o.domain if t is TO.SamplingOperator else o.range
+            if not np.all(gram(sp, 'Q') == getattr(sp, 'cell_volume', 1.0)):
+                keys.add('sampling-adjoint-nonuniform-weight')
+        elif t is TO.FlatteningOperator or name == 'FlatteningOperatorInverse':
+            sp = o.domain if t is TO.FlatteningOperator else o.range
+            if not np.all(gram(sp, 'Q') == getattr(sp, 'cell_volume', 1.0)):
+                keys.add('flattening-adjoint-nonuniform-weight')
+        elif t in (PO.ComponentProjection, PO.ComponentProjectionAdjoint):
+            P = o.domain if t is PO.ComponentProjection else o.range
+            if isinstance(o.index, (int, np.integer)) and _pweights(P)[o.index] != 1:
+                keys.add('component-projection-adjoint-weighted-pspace')
+        elif t in (DO.PartialDerivative, DO.Gradient, DO.Divergence, DO.Laplacian):
+            base = o.range if t is DO.Divergence else o.domain
+            if not _const(gram(base, 'Q')):
+                keys.add('finite-difference-adjoint-nodes-on-bdry')
+        elif t is DI.ResizingOperator or name == 'ResizingOperatorAdjoint':
+            wd, wr = gram(o.domain, 'Q'), gram(o.range, 'Q')
+            if not (_const(wd) and _const(wr)):
+                keys.add('resizing-adjoint-nodes-on-bdry')
+        elif t in (D.RealPart, D.ImagPart) and not o.domain.is_real:
+            keys.add('realpart-complex-adjoint-domain')
+        for a in ('left', 'right', 'operator', 'functional'):
+            sub = getattr(o, a, None)
+            if sub is not None and hasattr(sub, 'domain'):
+                walk(sub)
+        for sub in getattr(o, 'operators', ()) or ():
+            walk(sub)
+        if t is PO.ProductSpaceOperator:
+            for sub in o.ops.data:
+                walk(sub)
+    walk(op)
+    return keys
+
+
+def check_property(op):
+    """(ok, clause, detail): the property C05 on one operator object, by full bases."""
+    try:
+        adj = op.adjoint
+    except Exception as e:
+        return False, 'adjoint-raises', '%s: %s' % (type(e).__name__, str(e)[:120])
+    if not (adj.domain == op.range and adj.range == op.domain):
+        return False, 'spaces', 'adjoint maps %r -> %r, expected %r -> %r' % (adj.domain, adj.range, op.range, op.domain)
+    holds, _, worst, wit = verdict(op, adj, tol=0.0)
+    scale = 1.0
+    if wit is not None:
+        scale = max(1.0, abs(wit[2]), abs(wit[3]))
+    if worst > 1e-9 * scale:
+        return False, 'identity', 'max |<Ax,y> - <x,A*y>| = %g at basis pair %r' % (worst, wit)
+    try:
+        aa = adj.adjoint
+    except Exception as e:
+        return False, 'double-adjoint-raises', '%s: %s' % (type(e).__name__, str(e)[:120])
+    for x in basis(op.domain, 'R2'):
+        a, b = cflat(op(x), op.range), cflat(aa(aa.domain.element(x) if aa.domain != op.domain else x), aa.range)
+        if a.shape != b.shape or np.max(np.abs(a - b), initial=0.0) > 1e-9 * max(1.0, np.max(np.abs(a), initial=0.0)):
+            return False, 'double-adjoint', 'A.adjoint.adjoint(x) != A(x)'
+    return True, None, None
+
+
+def extra_ops(rng, tier):
+    """classes/options that are NOT in the Coq model: probed only"""
+    import odl
+    import scipy.sparse
+    reps = 1 if tier == 'quick' else 3
+    for _ in range(reps):
+        for bdry in (False, True):
+            for pm in ('constant', 'symmetric', 'periodic', 'order0', 'order1'):
+                n = rng.randint(3, 5)
+                dx = rng.choice([0.5, 1.0, 2.0])
+                sp = (odl.uniform_discr(0, (n - 1) * dx, n, nodes_on_bdry=True) if bdry
+                      else odl.uniform_discr(0, n * dx, n))
+                k = n + rng.randint(1, 2) if rng.random() < 0.6 else n - 1
+                kw = {'discr_kwargs': {'nodes_on_bdry': True}} if bdry else {}
+                yield 'ResizingOperator-' + pm, 'discr_bdry' if bdry else 'discr', \
+                    odl.ResizingOperator(sp, ran_shp=(k,), pad_mode=pm, **kw)
+        sp2 = odl.uniform_discr([0, 0], [1, 2], (2, 3))
+        yield 'ResizingOperator-constant', '2d-discr', odl.ResizingOperator(sp2, ran_shp=(3, 5))
+        yield 'ResizingOperator-adjoint', '2d-discr', odl.ResizingOperator(sp2, ran_shp=(3, 5)).adjoint
+        for kind in ('unweighted', 'const'):
+            shp = (rng.randint(2, 3), rng.randint(2, 3))
+            sp = odl.rn(shp) if kind == 'unweighted' else odl.rn(shp, weighting=2.0)
+            for ax in (0, 1):
+                M = np.array([[float(rng.randint(-2, 2)) for _ in range(shp[ax])] for _ in range(rng.randint(1, 3))])
+                yield 'MatrixOperator-axis%d' % ax, '2d-' + kind, odl.MatrixOperator(M, domain=sp, axis=ax)
+        M = scipy.sparse.coo_matrix(np.array([[1.0, 0, 2], [0, -1, 0]]))
+        yield 'MatrixOperator-sparse', 'unweighted', odl.MatrixOperator(M)
+        yield 'MatrixOperator-sparse', 'const', odl.MatrixOperator(M, domain=odl.rn(3, weighting=2.0))
+        yield 'MatrixOperator-sparse', 'array', odl.MatrixOperator(M, domain=odl.rn(3, weighting=[1, 2, 3]),
+                                                                     range=odl.rn(2, weighting=[1, 2]))
+        # power-space projections with slices / lists are not modelled
+        P = odl.ProductSpace(odl.rn(2), 3)
+        yield 'ComponentProjection-slice', 'pspace-none', odl.ComponentProjection(P, slice(0, 2))
+        yield 'ComponentProjection-list', 'pspace-none', odl.ComponentProjection(P, [0, 2])
+        # complex sampling is unsupported by np.bincount in the adjoint: see probes
+        yield 'IdentityOperator-field', 'field', odl.IdentityOperator(odl.RealNumbers())
+        yield 'ScalingOperator-field', 'field', odl.ScalingOperator(odl.ComplexNumbers(), 1 + 2j)
+        yield 'InnerProductOperator-pspace', 'pspace-array', odl.InnerProductOperator(
+            rand_el(rng, odl.ProductSpace(odl.rn(2), odl.rn(3, weighting=2.0), weighting=[2.0, 3.0])))
+        yield 'MultiplyOperator-pspace', 'pspace-array', odl.MultiplyOperator(
+            rand_el(rng, odl.ProductSpace(odl.rn(2), odl.rn(3, weighting=2.0), weighting=[2.0, 3.0])))
+        try:
+            from odl.trafos import DiscreteFourierTransform
+            yield 'DiscreteFourierTransform', 'complex-unweighted', DiscreteFourierTransform(odl.cn(rng.randint(2, 5)))
+            yield 'DiscreteFourierTransform-real', 'unweighted', DiscreteFourierTransform(odl.rn(rng.randint(2, 5)),
+                                                                                         halfcomplex=False)
+        except Exception:
+            pass
+
+
+def probe_ops(rng, tier):
+    for it in builtin_ops(rng, tier):
+        yield it
+    for it in extra_ops(rng, tier):
+        yield it
+    ntree = 40 if tier == 'quick' else 250
+    for i in range(ntree):
+        cplx = (i % 3 == 2)
+        uniform = (i % 2 == 0)
+        spaces = tree_spaces(rng, cplx, uniform=uniform)
+        depth = rng.randint(1, 4 if tier == 'quick' else 6)
+        yield 'tree', ('complex-' if cplx else '') + ('uniform' if uniform else 'mixed-weights'), \
+            random_tree(rng, spaces, cplx, depth)
+
+
+def nth_probe_op(seed, tier, k):
+    import random
+    for i, (cls, kind, op) in enumerate(probe_ops(random.Random(seed), tier)):
+        if i == k:
+            return op
+    raise IndexError(k)
+
+
 def probes(rng, tier):
-    return []
+    import odl
+    seed = rng.getrandbits(48)
+    import random
+    out = []
+    for k, (cls, kind, op) in enumerate(probe_ops(random.Random(seed), tier)):
+        ok, clause, detail = check_property(op)
+        expected = sorted(finding_keys(op))
+        if ok:
+            key = 'adjoint-%s-%s' % (cls, kind)
+        elif clause == 'adjoint-raises' and 'realpart-complex-adjoint-domain' in expected:
+            key = 'realpart-complex-adjoint-domain'
+        elif clause == 'spaces' and 'realpart-complex-adjoint-domain' in expected:
+            key = 'realpart-complex-adjoint-domain'
+        elif clause == 'identity' and expected:
+            key = expected[0]
+        elif clause == 'double-adjoint-raises' and _is_complex(op.domain) and \
+                ('InnerProductOperator' in repr(op) or 'FunctionalLeftVectorMult' in repr(op)):
+            key = 'innerproduct-complex-double-adjoint-raises'
+        else:
+            key = 'adjoint-%s-%s-%s' % (cls, kind, clause)
+        rp = ("import sys\nsys.path.insert(0, %r)\nfrom harness import c05\nop = c05.nth_probe_op(%d, %r, %d)\n"
+              "print(repr(op)[:400])\nok, clause, observed = c05.check_property(op)\n"
+              "expected = 'adjoint identity, swapped spaces, A.adjoint.adjoint = A'\n" % (C.VERIF, seed, tier, k))
+        out.append(C.Probe(ok, key, '%s on %s: %s' % (cls, kind, repr(op)[:160]), rp, {'clause': clause, 'detail': detail}))
+    # clauses about operators that have NO adjoint although linear (recorded separately)
+    c3 = odl.cn(2)
+    v = c3.element([1 + 2j, 3j])
+    A = odl.MultiplyOperator(v, domain=odl.ComplexNumbers())
+    try:
+        A.adjoint
+        ok = check_property(A)[0]
+    except AttributeError:
+        ok = False
+    out.append(C.Probe(ok, 'innerproduct-complex-double-adjoint-raises',
+                       'MultiplyOperator(complex vector, domain=ComplexNumbers()).adjoint',
+                       "import odl\nA=odl.MultiplyOperator(odl.cn(2).element([1+2j,3j]), domain=odl.ComplexNumbers())\n"
+                       "try:\n    A.adjoint; ok=True\nexcept AttributeError as e:\n    ok=False; observed=repr(e)\n"))
+    return out
 
 
 LEVEL_TEXT = 'in progress'
